@@ -1303,8 +1303,21 @@ theorem numel_split (tshape : List Nat) (r c : List Int) (h : IsPermI (r ++ c) t
       _ = tshape := h0
   rw [this]
 
+theorem validate_tenmat_tail_ok (dd mm : MatS) (b : Bool)
+    (h : (if dd != mm then (.error .reject : Except Reject Unit) else rejectIf b) = .ok ()) :
+    dd = mm ∧ b = false := by
+  by_cases hd : dd = mm
+  · have : (dd != mm) = false := by simp [hd]
+    rw [this] at h
+    simp only [Bool.false_eq_true, if_false] at h
+    exact ⟨hd, (rejectIf_ok b).1 h⟩
+  · have : (dd != mm) = true := by simp [hd]
+    rw [this] at h
+    simp only [if_true] at h
+    cases h
+
 theorem validate_tenmat_ok_iff (a : TenmatArgs) : validate_tenmat a = .ok () ↔ Pre_tenmat a := by
-  unfold validate_tenmat Pre_tenmat Pre_toMat
+  unfold validate_tenmat Pre_tenmat
   by_cases h1 : a.dshape.1 * a.dshape.2 = numel a.tshape
   · rw [if_neg (by simp [h1])]
     cases hw : wrapDimsI a.tshape.length a.rdims a.cdims none with
@@ -1316,14 +1329,35 @@ theorem validate_tenmat_ok_iff (a : TenmatArgs) : validate_tenmat a = .ok () ↔
       · have hm := hp.modesOK
         rw [pyGather_of_modes _ _ (fun k hk => hm.1 k (List.mem_append_left _ hk)),
           pyGather_of_modes _ _ (fun k hk => hm.1 k (List.mem_append_right _ hk))]
-        simp only [numel_split a.tshape r c hp, h1, bne_self_eq_false, Bool.false_eq_true, if_false, rejectIf_ok,
-          Bool.not_eq_false', isPermOfI_iff, hp]
-      · simp only [hp, iff_false]
+        have hsplit := numel_split a.tshape r c hp
+        have hperm : rejectIf (!isPermOfI (r ++ c) a.tshape.length) = .ok () := by
+          rw [rejectIf_ok, Bool.not_eq_false', isPermOfI_iff]; exact hp
+        have hpf : (!isPermOfI (r ++ c) a.tshape.length) = false := (rejectIf_ok _).1 hperm
+        unfold sideSize
+        dsimp only
+        constructor
+        · intro h
+          refine ⟨hp, ?_⟩
+          intro hv
+          have := (validate_tenmat_tail_ok _ _ _ h).1
+          rw [hv] at this
+          simp only [Bool.false_and, Bool.false_eq_true, if_false] at this
+          exact this
+        · rintro ⟨_, hsh⟩
+          cases hv : a.vec with
+          | true =>
+            rw [if_neg (by rw [hsplit]; simp)]
+            exact hperm
+          | false =>
+            have hd := hsh hv
+            rw [if_neg (by rw [← hd]; simp)]
+            exact hperm
+      · simp only [hp, false_and, iff_false]
         intro h
         split at h
-        · split at h
-          · cases h
-          · rw [rejectIf_ok, Bool.not_eq_false', isPermOfI_iff] at h; exact hp h
+        · have := (validate_tenmat_tail_ok _ _ _ h).2
+          rw [Bool.not_eq_false', isPermOfI_iff] at this
+          exact hp this
         · cases h
   · rw [if_pos (by simp [h1])]
     simp [h1]
